@@ -2,6 +2,7 @@ package rules
 
 import (
 	"go/token"
+	"strings"
 
 	"golang.org/x/tools/go/ssa"
 
@@ -76,92 +77,15 @@ func c07(r *core.Report) {
 	// inside the callback (onHandshake -> handshakeTimer.Reset). That only sticks if the timer's fire
 	// routine marks itself not-pending BEFORE it runs the callback and never clears the flag afterwards.
 	r.Rule("C07-TIMER", "the timer's fire routine clears its pending flag before the callback and never after it; Reset sets it", 3)
-	if nt := needFn(r, "p/p2pke", "newTimer"); nt != nil && len(nt.AnonFuncs) >= 1 {
-		pend := needField(r, "p/p2pke", "Timer", "isPending")
-		fire := nt.AnonFuncs[0]
-		r.Analysed(fire)
-		// functions (module) that store the pending flag, with the value stored
-		storesPending := func(fn *ssa.Function, want *bool) bool {
-			seen := map[*ssa.Function]bool{}
-			var walk func(f *ssa.Function, d int) bool
-			walk = func(f *ssa.Function, d int) bool {
-				if f == nil || seen[f] || d > 3 || f.Blocks == nil {
-					return false
-				}
-				seen[f] = true
-				for _, st := range core.StoresToField(f, pend) {
-					if want == nil {
-						return true
-					}
-					if b, isK := core.ConstBool(st.Val); !isK || b == *want {
-						return true
-					}
-				}
-				for _, g := range p.Callees(f, nil) {
-					if walk(g, d+1) {
-						return true
-					}
-				}
-				return false
-			}
-			return walk(fn, 0)
-		}
-		fls := false
-		isClear := func(in ssa.Instruction) bool {
-			if st, ok := in.(*ssa.Store); ok {
-				if f, _ := core.FieldOfAddr(st.Addr); core.SameField(f, pend) {
-					b, isK := core.ConstBool(st.Val)
-					return isK && !b
-				}
-			}
-			return false
-		}
-		var cb ssa.Instruction
-		for _, in := range core.AllInstrs(fire) {
-			if c, ok := in.(*ssa.Call); ok && core.IsParamFuncCall(c.Common()) {
-				cb = in
-			}
-		}
-		if cb == nil || pend == nil {
-			r.Fail("C07-TIMER: callback invocation or Timer.isPending not found in newTimer's fire routine")
-		} else {
-			before := !core.Reach(fire, nil, nil, isClear)[cb]
-			r.Check(before, "C07-TIMER", "timer fire routine clears before the callback", p.Pos(cb.Pos()), "every path to the callback passes isPending = false", "the callback can run while the timer still counts as pending: a Reset made by the callback is indistinguishable from the old arming")
-			after := false
-			for in := range core.Reach(fire, cb, nil, nil) {
-				switch x := in.(type) {
-				case *ssa.Store:
-					if f, _ := core.FieldOfAddr(x.Addr); core.SameField(f, pend) {
-						after = true
-					}
-				case ssa.CallInstruction:
-					if g := core.StaticCallee(x.Common()); g != nil && p.InModule(g) && storesPending(g, nil) {
-						after = true
-					}
-				}
-			}
-			// deferred calls run after the callback too
-			for _, in := range core.AllInstrs(fire) {
-				d, ok := in.(*ssa.Defer)
-				if !ok {
-					continue
-				}
-				g := core.StaticCallee(d.Common())
-				if g == nil {
-					g = core.ClosureFn(d.Call.Value)
-				}
-				if g != nil && p.InModule(g) && storesPending(g, nil) {
-					after = true
-				}
-			}
-			r.Check(!after, "C07-TIMER", "timer fire routine leaves the flag alone after the callback", p.Pos(cb.Pos()), "nothing after the callback (deferred calls included) writes isPending", "the pending flag is written after the callback returned (directly, in a callee or in a deferred call): when the callback re-arms its own timer (handshake retransmission) the re-arming is wiped, the next firing returns early, and a lost handshake message is never sent again")
-		}
-		if rs := needFn(r, "p/p2pke", "Timer.Reset"); rs != nil {
-			tr := true
-			r.Check(storesPending(rs, &tr), "C07-TIMER", "Timer.Reset sets the pending flag", p.Pos(rs.Pos()), "Reset stores isPending = true", "Reset does not mark the timer pending: the fire routine returns early and the callback never runs")
-		}
-		_ = fls
-	}
+	ruleTimer(r, "C07-TIMER")
+
+	// ---- C07-SINGLE-CHANNEL: two nodes converge on a pair of channels only if each node has ONE channel
+	// per remote address: the table's get-or-create looks the key up and inserts under one and the same
+	// write lock (a lookup under the read lock followed by an unconditional insert under the write lock
+	// creates two channels when first contact happens in both directions at once; replies then go to
+	// whichever channel was stored last and the other never completes)
+	r.Rule("C07-SINGLE-CHANNEL", "p2pkeswarm's channel table inserts only on the miss edge of a lookup made under the same write lock", 1)
+	ruleCheckThenInsert(r, "C07-SINGLE-CHANNEL")
 
 	// ---- C07-KEEPALIVE
 	r.Rule("C07-KEEPALIVE", "data from the current session refreshes lastReceived before it is handed out", 2)
@@ -439,4 +363,191 @@ func isRangeIndex(v ssa.Value) bool {
 		return ph.Comment == "rangeindex"
 	}
 	return false
+}
+
+// ruleTimer (shared by C07 and C06: retransmission of handshake messages is the callback re-arming
+// its own timer): the timer's fire routine clears its pending flag before the callback and never
+// after it; Reset sets the flag.
+func ruleTimer(r *core.Report, ruleID string) {
+	p := r.P
+	if nt := needFn(r, "p/p2pke", "newTimer"); nt != nil && len(nt.AnonFuncs) >= 1 {
+		pend := needField(r, "p/p2pke", "Timer", "isPending")
+		fire := nt.AnonFuncs[0]
+		r.Analysed(fire)
+		// functions (module) that store the pending flag, with the value stored
+		storesPending := func(fn *ssa.Function, want *bool) bool {
+			seen := map[*ssa.Function]bool{}
+			var walk func(f *ssa.Function, d int) bool
+			walk = func(f *ssa.Function, d int) bool {
+				if f == nil || seen[f] || d > 3 || f.Blocks == nil {
+					return false
+				}
+				seen[f] = true
+				for _, st := range core.StoresToField(f, pend) {
+					if want == nil {
+						return true
+					}
+					if b, isK := core.ConstBool(st.Val); !isK || b == *want {
+						return true
+					}
+				}
+				for _, g := range p.Callees(f, nil) {
+					if walk(g, d+1) {
+						return true
+					}
+				}
+				return false
+			}
+			return walk(fn, 0)
+		}
+		fls := false
+		isClear := func(in ssa.Instruction) bool {
+			if st, ok := in.(*ssa.Store); ok {
+				if f, _ := core.FieldOfAddr(st.Addr); core.SameField(f, pend) {
+					b, isK := core.ConstBool(st.Val)
+					return isK && !b
+				}
+			}
+			return false
+		}
+		var cb ssa.Instruction
+		for _, in := range core.AllInstrs(fire) {
+			if c, ok := in.(*ssa.Call); ok && core.IsParamFuncCall(c.Common()) {
+				cb = in
+			}
+		}
+		if cb == nil || pend == nil {
+			r.Fail("C07-TIMER: callback invocation or Timer.isPending not found in newTimer's fire routine")
+		} else {
+			before := !core.Reach(fire, nil, nil, isClear)[cb]
+			r.Check(before, ruleID, "timer fire routine clears before the callback", p.Pos(cb.Pos()), "every path to the callback passes isPending = false", "the callback can run while the timer still counts as pending: a Reset made by the callback is indistinguishable from the old arming")
+			after := false
+			for in := range core.Reach(fire, cb, nil, nil) {
+				switch x := in.(type) {
+				case *ssa.Store:
+					if f, _ := core.FieldOfAddr(x.Addr); core.SameField(f, pend) {
+						after = true
+					}
+				case ssa.CallInstruction:
+					if g := core.StaticCallee(x.Common()); g != nil && p.InModule(g) && storesPending(g, nil) {
+						after = true
+					}
+				}
+			}
+			// deferred calls run after the callback too
+			for _, in := range core.AllInstrs(fire) {
+				d, ok := in.(*ssa.Defer)
+				if !ok {
+					continue
+				}
+				g := core.StaticCallee(d.Common())
+				if g == nil {
+					g = core.ClosureFn(d.Call.Value)
+				}
+				if g != nil && p.InModule(g) && storesPending(g, nil) {
+					after = true
+				}
+			}
+			r.Check(!after, ruleID, "timer fire routine leaves the flag alone after the callback", p.Pos(cb.Pos()), "nothing after the callback (deferred calls included) writes isPending", "the pending flag is written after the callback returned (directly, in a callee or in a deferred call): when the callback re-arms its own timer (handshake retransmission) the re-arming is wiped, the next firing returns early, and a lost handshake message is never sent again")
+		}
+		if rs := needFn(r, "p/p2pke", "Timer.Reset"); rs != nil {
+			tr := true
+			r.Check(storesPending(rs, &tr), ruleID, "Timer.Reset sets the pending flag", p.Pos(rs.Pos()), "Reset stores isPending = true", "Reset does not mark the timer pending: the fire routine returns early and the callback never runs")
+		}
+		_ = fls
+	}
+
+}
+
+// ruleCheckThenInsert (shared by C07 and C14): store.getOrCreate of p2pkeswarm.
+func ruleCheckThenInsert(r *core.Report, ruleID string) {
+	p := r.P
+	fn := needFn(r, "s/p2pkeswarm", "store.getOrCreate")
+	mf := needField(r, "s/p2pkeswarm", "store", "m")
+	if fn == nil || mf == nil {
+		return
+	}
+	isM := func(v ssa.Value) bool { f, _ := core.FieldRead(core.Through(v)); return core.SameField(f, mf) }
+	isLock := func(in ssa.Instruction) bool {
+		ci, ok := in.(ssa.CallInstruction)
+		if !ok {
+			return false
+		}
+		if _, isD := in.(*ssa.Defer); isD {
+			return false
+		}
+		n := core.CalleeName(ci.Common())
+		return n == "(*sync.RWMutex).Lock" || n == "(*sync.Mutex).Lock"
+	}
+	isUnlock := func(in ssa.Instruction) bool {
+		ci, ok := in.(ssa.CallInstruction)
+		if !ok {
+			return false
+		}
+		if _, isD := in.(*ssa.Defer); isD {
+			return false
+		}
+		n := core.CalleeName(ci.Common())
+		return strings.HasSuffix(n, ").Unlock") || strings.HasSuffix(n, ").RUnlock")
+	}
+	n := 0
+	for _, in := range core.AllInstrs(fn) {
+		mu, ok := in.(*ssa.MapUpdate)
+		if !ok || !isM(mu.Map) {
+			continue
+		}
+		n++
+		okIns := false
+		why := "no lookup of the key precedes the insert in this function"
+		for _, in2 := range core.AllInstrs(fn) {
+			lk, ok := in2.(*ssa.Lookup)
+			if !ok || !lk.CommaOk || !isM(lk.X) || core.Through(lk.Index) != core.Through(mu.Key) {
+				continue
+			}
+			// the insert is reachable only through the lookup's miss edge
+			cutMiss := func(b *ssa.BasicBlock, i int) bool {
+				iff, ok := b.Instrs[len(b.Instrs)-1].(*ssa.If)
+				if !ok {
+					return false
+				}
+				cond, neg := core.StripNot(iff.Cond)
+				ex, ok := cond.(*ssa.Extract)
+				if !ok || ex.Index != 1 || ex.Tuple != ssa.Value(lk) {
+					return false
+				}
+				miss := 1
+				if neg {
+					miss = 0
+				}
+				return i == miss
+			}
+			if !core.GuardedFromEntry(fn, mu, cutMiss) {
+				why = "the insert does not depend on the lookup having missed"
+				continue
+			}
+			// the lookup itself runs under the write lock: it is not reachable before a Lock call, and no
+			// Unlock lies between it and the insert
+			before := core.Reach(fn, nil, nil, isLock)
+			if before[lk] {
+				why = "the lookup can run before the write lock is taken"
+				continue
+			}
+			between := core.Reach(fn, lk, nil, func(i3 ssa.Instruction) bool { return i3 == ssa.Instruction(mu) })
+			unlocked := false
+			for i3 := range between {
+				if isUnlock(i3) {
+					unlocked = true
+				}
+			}
+			if unlocked {
+				why = "the lock is released between the lookup and the insert"
+				continue
+			}
+			okIns = true
+		}
+		r.Check(okIns, ruleID, core.FnName(fn)+" insert", p.Pos(mu.Pos()), "the entry is created only when a lookup under the same write lock missed", why+": two callers that both miss create two channels for one remote address; the later one replaces the earlier in the table, handshake replies reach only that one and the other caller's Tell never completes")
+	}
+	if n == 0 {
+		r.Fail("%s: no insert into the channel table found in getOrCreate", ruleID)
+	}
 }
